@@ -95,6 +95,7 @@ func checkC06(c *Check) {
 	nli += importRules(c, "C12", checkC12, "record-as-written: ", "once-verbatim-in-order", "framing-primitive", "reader-outlives-loop", "read-error-ends-delivery")
 	c.Floor("imported line-integrity / record-as-written obligations", 8, nli)
 	nodeNameRule(c)
+	wholeLineMatchAnchored(c, d, rx)
 	rowOf := map[*ssa.Function][]Row{}
 	for _, r := range d.Rows {
 		rowOf[r.Fn] = append(rowOf[r.Fn], r)
@@ -115,6 +116,9 @@ func checkC06(c *Check) {
 				}
 			}
 		})
+		if row.Other > 0 && row.TabG == nil {
+			c.Bad("dispatch-extraction-agreement", name, p.InstrPos(row.Site), fmt.Sprintf("besides its keyword predicates the row is guarded by %d condition(s) that are not keyword tests on the line (a pre-filter, a flag): a line of this form for which such a condition fails is not dispatched, and no event is produced although the form is supported", row.Other))
+		}
 		if len(row.Pos) == 0 {
 			c.Bad("dispatch-extraction-agreement", name, p.InstrPos(row.Site), "the row is selected without a recognised predicate on the line (a matcher that is neither a literal prefix test nor a package-level pattern)")
 			continue
@@ -761,4 +765,66 @@ func nodeNameRule(c *Check) {
 		}
 	}
 	c.Floor("node-name sources examined", 1, n)
+}
+
+
+// wholeLineMatchAnchored: a pattern matched against the whole line finds its
+// leftmost match; unless the pattern is anchored at the start (or begins
+// with the literal keyword the row was dispatched on, which pins the match
+// to offset 0) that match can begin inside client-chosen text, and the
+// groups then hold text from the wrong place. An unanchored helper pattern
+// (the certificate identifiers) is sound only on the rest of the line cut
+// at the end of an anchored match.
+func wholeLineMatchAnchored(c *Check, d *Dispatch, rx map[string]*RegexVar) {
+	p := c.P
+	n := 0
+	seen := map[ssa.Instruction]bool{}
+	for _, row := range d.Rows {
+		var walk func(fn *ssa.Function, r *Resolver, depth int)
+		walk = func(fn *ssa.Function, r *Resolver, depth int) {
+			if depth > 3 || fn.Blocks == nil || FuncPkgPath(fn) != ModPath+"/"+pkgSshd {
+				return
+			}
+			for _, ci := range callsIn(fn) {
+				sc := staticCallee(ci.Common())
+				if sc == nil {
+					continue
+				}
+				if sc.Signature.Recv() != nil && strings.HasPrefix(sc.String(), "(*regexp.Regexp).") && len(ci.Common().Args) >= 2 {
+					switch sc.Name() {
+					case "FindStringSubmatch", "MatchString", "FindString", "FindStringIndex", "FindStringSubmatchIndex", "FindAllString", "FindAllStringSubmatch":
+					default:
+						continue
+					}
+					g := regexGlobalOf(ci.Common().Args[0])
+					rv := rx[g]
+					if rv == nil || rv.Tree == nil || seen[ci] {
+						continue
+					}
+					so := r.Of(ci.Common().Args[1])
+					if !(so.K == "field" && so.Name == "logEntry") {
+						continue // a part of the line: judged by the slicing idioms of C11
+					}
+					seen[ci] = true
+					n++
+					okA := rv.BeginAnchored()
+					how := "anchored at the start"
+					if !okA {
+						lit := rv.LeadingLiteral()
+						for _, pr := range row.Pos {
+							if pr.Kind == "prefix" && lit != "" && (strings.HasPrefix(lit, pr.Prefix) || strings.HasPrefix(pr.Prefix, lit)) {
+								okA = true
+								how = "begins with the literal \"" + lit + "\" and the row is dispatched on the line prefix \"" + pr.Prefix + "\": the leftmost match is at offset 0"
+							}
+						}
+					}
+					c.Cond(okA, "group-alphabet-adequacy", fmt.Sprintf("%s matched against the whole line in %s", g, fn.Name()), p.InstrPos(ci), how, "the unanchored pattern "+g+" is matched against the whole line: its leftmost match can begin inside an earlier, client-chosen field (an account name or fingerprint that happens to contain the pattern's first literal), so the extracted groups hold text from the wrong place")
+				} else if InRepo(sc) && sc != fn {
+					walk(sc, r.Bind(sc, ci), depth+1)
+				}
+			}
+		}
+		walk(row.Fn, NewResolver(p), 0)
+	}
+	c.Floor("patterns matched against the whole line in entry functions", 15, n)
 }
